@@ -35,6 +35,7 @@ const (
 	opCommit
 	opRollback
 	opPrepare // prepare s from '<derived-table join>' again
+	opFail    // select nope from t: resolves t, then fails in analysis (the statement's transaction is dropped, neither committed nor rolled back)
 )
 
 type op struct {
@@ -79,6 +80,8 @@ func (o op) class() string {
 		return "commit"
 	case opRollback:
 		return "rollback"
+	case opFail:
+		return "failed-statement"
 	}
 	return "prepare"
 }
@@ -90,7 +93,7 @@ func quickAlphabet() []op {
 	return []op{
 		{0, opRead, shEX}, {0, opRead, shCL}, {0, opRead, shVW}, {0, opRead, shCR},
 		{0, opDML, dUpdT}, {0, opDML, dInsT},
-		{0, opBegin, 0}, {0, opCommit, 0}, {0, opRollback, 0},
+		{0, opBegin, 0}, {0, opCommit, 0}, {0, opRollback, 0}, {0, opFail, 0},
 		{1, opDML, dDelT}, {1, opDML, dUpdU},
 		{1, opAlterCol, 0}, {1, opIndex, 0}, {1, opView, 0},
 	}
@@ -107,7 +110,7 @@ func fullAlphabet() []op {
 			a = append(a, op{s, opDML, d})
 		}
 		a = append(a, op{s, opAlterCol, 0}, op{s, opIndex, 0}, op{s, opView, 0},
-			op{s, opBegin, 0}, op{s, opCommit, 0}, op{s, opRollback, 0}, op{s, opPrepare, 0})
+			op{s, opBegin, 0}, op{s, opCommit, 0}, op{s, opRollback, 0}, op{s, opPrepare, 0}, op{s, opFail, 0})
 	}
 	return a
 }
@@ -120,6 +123,9 @@ var fixture = []string{
 	"create view v as " + viewDef[0],
 	"create procedure p() " + sqlIN,
 }
+
+// failSQL resolves table t and then fails while the statement is analysed: unknown column
+const failSQL = "select nope from t"
 
 const prepareSQL = "prepare s from '" + sqlCR + "'"
 
@@ -151,6 +157,8 @@ func sqlOf(o op, m *model) string {
 		return "rollback"
 	case opPrepare:
 		return prepareSQL
+	case opFail:
+		return failSQL
 	}
 	return ""
 }
@@ -338,6 +346,11 @@ func (st *stepper) Step(h []int) (string, bool) {
 				}
 				m.doDML(o.Sess, d, affected)
 				outcome = fmt.Sprintf("dml-%s:%s", d.sql()[:6], got)
+			case o.Kind == opFail:
+				// no effect on the model: the statement must fail and leave nothing behind
+				if res.Err == nil {
+					v = newViol("statement-result", "missing-error", "-", "no error", "unknown column error")
+				}
 			case res.Err != nil:
 				v = newViol("statement-result", "unexpected-error", "-", "error class "+eng.ErrClass(res.Err)+": "+res.Err.Error(), "no error")
 			case o.Kind == opAlterCol:
@@ -544,8 +557,8 @@ func init() {
 		Level: "model_checking",
 		Rule: "BFS over all statement histories of two sessions on one real engine (fresh engine per history; t(a pk,b)={(1,1),(2,2)}, u likewise, view v, procedure p, statement s prepared in every session). " +
 			"Read suite (10 shapes that build caches): join against a derived table (CachedResults), hash join, uncorrelated IN subquery, scalar subquery, correlated subquery, view, CTE used twice, CALL of a procedure that selects, EXECUTE of the prepared derived-table join, select *. " +
-			"quick alphabet (14, one operation per kind): session 1 = execute / call / view / derived-join reads, update and insert into t, BEGIN, COMMIT, ROLLBACK; session 2 = delete from t, update u, ALTER TABLE t ADD/DROP COLUMN, CREATE/DROP INDEX, CREATE OR REPLACE VIEW; every history of length <= 4 (no merging). " +
-			"thorough: (a) the quick alphabet, every history of length <= 3, then BFS to depth 5 merging histories that reach an equal model state with equal observations; (b) full alphabet (46): both sessions x {10 reads, insert/update/delete on t and on u, the three DDLs, BEGIN/COMMIT/ROLLBACK, PREPARE}, sessions symmetric so the first statement is by session 1, every history of length <= 2, then merged BFS to depth 4. " +
+			"quick alphabet (15, one operation per kind): session 1 = execute / call / view / derived-join reads, update and insert into t, BEGIN, COMMIT, ROLLBACK, a statement that fails in analysis after resolving t; session 2 = delete from t, update u, ALTER TABLE t ADD/DROP COLUMN, CREATE/DROP INDEX, CREATE OR REPLACE VIEW; every history of length <= 4 (no merging). " +
+			"thorough: (a) the quick alphabet, every history of length <= 3, then BFS to depth 5 merging histories that reach an equal model state with equal observations; (b) full alphabet (48): both sessions x {10 reads, insert/update/delete on t and on u, the three DDLs, BEGIN/COMMIT/ROLLBACK, PREPARE, failing statement}, sessions symmetric so the first statement is by session 1, every history of length <= 2, then merged BFS to depth 4. " +
 			"After the last statement of each history (the engine is discarded per history) a third session reads select * from t, select * from u and the view (must be exactly the latest committed state), both sessions read t and u plainly, and then the probe suite runs: every shape twice in a row in the acting session, execute/call/view also in the other session, with the third session looking again in between (reads must not change the committed state). " +
 			"Oracle: hand-written Go evaluation of each shape over the model rows; a read by s must equal the evaluation on some state in which every object (t, u, view) is taken from a committed version between s's BEGIN and the latest (outside a transaction: exactly the latest) plus s's own uncommitted changes; the second run of a query must equal the first. " +
 			"DDL inside an open explicit transaction is outside the domain (C17); a history in which two committed writing transactions overlap in time is not judged beyond that point. " +
